@@ -6,6 +6,7 @@ import (
 	"flag"
 	"fmt"
 	"io"
+	"net/http"
 	"os"
 	"os/exec"
 	"path/filepath"
@@ -304,6 +305,45 @@ var probes = []probeProg{
 	{"same-literal-eval", "n := 40\n\"n + 1\".eval.p\nhalf := {|x| x / 0}\n\nhalf(3)\n", ""},
 }
 
+// ---- HTTP front-end: requests served through the real http module, in memory ----
+
+var httpProbes = []httpReq{
+	{Method: "GET", Target: "/probe"},
+	{Method: "GET", Target: "/notimpl"},
+	{Method: "GET", Target: "/zero"},
+	{Method: "GET", Target: "/hello?name=p"},
+	{Method: "GET", Target: "/users/1?a=1"},
+	{Method: "GET", Target: "/env"},
+	{Method: "POST", Target: "/hdr", Body: `{"x-probe": "1"}`},
+}
+
+func genHTTPHistory(t *tape.Tape, uniq string) httpReq {
+	switch t.Pick(2, 2, 3, 2, 2, 2, 1, 1) {
+	case 0:
+		return httpReq{Method: "GET", Target: "/fail?msg=" + uniq}
+	case 1:
+		return httpReq{Method: "GET", Target: "/notimpl"}
+	case 2:
+		return httpReq{Method: "GET", Target: "/leak?v=L" + uniq}
+	case 3:
+		return httpReq{Method: "GET", Target: "/zero"}
+	case 4:
+		return httpReq{Method: "POST", Target: "/hdr", Body: fmt.Sprintf(`{"x-h-%s": "v", "x-g-%s": "w"}`, uniq, uniq)}
+	case 5:
+		return httpReq{Method: "GET", Target: fmt.Sprintf("/users/%s?k%s=v&j%s=w", uniq, uniq, uniq)}
+	case 6:
+		return httpReq{Method: "GET", Target: "/env"}
+	default:
+		return httpReq{Method: "GET", Target: "/nosuch" + uniq}
+	}
+}
+
+func serveCaptured(h http.Handler, rq httpReq) probeResult {
+	var r probeResult
+	r.Stderr = captureStderr(func() { r.Stdout = serveOnce(h, rq) })
+	return r
+}
+
 // ---- stats ----
 
 type C19Stats struct {
@@ -415,6 +455,13 @@ func (c *c19Check) Init(tier string) {
 			}
 		}
 	}
+	if HTTPAvailable {
+		for i := range httpProbes {
+			if _, err := c.freshResult("http", probeProg{kind: fmt.Sprint(i)}); err != nil {
+				fmt.Fprintln(os.Stderr, "INFRA:", err)
+			}
+		}
+	}
 	f, err := os.CreateTemp(c.scratch(), "c19fresh-*.json")
 	if err != nil {
 		fmt.Fprintln(os.Stderr, "INFRA:", err)
@@ -468,6 +515,21 @@ func c19Fresh(args []string) int {
 	if *fe == "runtest" {
 		r := runTestDir(*dir)
 		b, _ := json.Marshal(r)
+		os.Stdout.Write(b)
+		return 0
+	}
+	if *fe == "http" {
+		h, err := newHTTPHandler(harness.NewInterp())
+		if err != nil {
+			fmt.Fprintln(os.Stderr, err)
+			return 2
+		}
+		var idx int
+		fmt.Sscanf(*kind, "%d", &idx)
+		if idx < 0 || idx >= len(httpProbes) {
+			return 2
+		}
+		b, _ := json.Marshal(serveCaptured(h, httpProbes[idx]))
 		os.Stdout.Write(b)
 		return 0
 	}
@@ -607,6 +669,9 @@ func (c *c19Check) runHistory(seed, run uint64, rec []uint32, s *C19Stats) []Vio
 	if run%5 == 4 {
 		return c.runTestHistory(seed, run, t, s)
 	}
+	if run%5 == 3 && HTTPAvailable {
+		return c.runHTTPHistory(seed, run, t, s)
+	}
 	var rng = t
 	_ = rng
 	fe := c.fes[t.Intn(len(c.fes))]
@@ -671,6 +736,63 @@ func (c *c19Check) runHistory(seed, run uint64, rec []uint32, s *C19Stats) []Vio
 		s.Samples = append(s.Samples, map[string]interface{}{"frontend": fe.name(), "history": hist})
 	}
 	return viols
+}
+
+// runHTTPHistory: a server built by the real http module handles a history of requests
+// (failing handlers, handlers touching `_`, handlers assigning variables, new JSON keys
+// and header names); after each, a probe request must be answered as by a new process.
+func (c *c19Check) runHTTPHistory(seed, run uint64, t *tape.Tape, s *C19Stats) []Viol {
+	s.Frontends["http"]++
+	h, err := newHTTPHandler(c.it)
+	if err != nil {
+		s.Infra++
+		if len(s.InfraMsgs) < 5 {
+			s.InfraMsgs = append(s.InfraMsgs, err.Error())
+		}
+		return nil
+	}
+	base := FingerprintBuiltins(c.it.Global)
+	var hist []string
+	n := 1 + t.Intn(6)
+	var kinds []string
+	for i := 0; i < n; i++ {
+		rq := genHTTPHistory(t, fmt.Sprintf("%d_%d", run, i))
+		got := serveCaptured(h, rq)
+		s.Steps++
+		kind := strings.SplitN(strings.TrimPrefix(rq.Target, "/"), "?", 2)[0]
+		if i := strings.IndexAny(kind, "/0123456789"); i > 0 {
+			kind = kind[:i]
+		}
+		s.HistKinds["http-"+kind]++
+		kinds = append(kinds, kind)
+		hist = append(hist, fmt.Sprintf("%s %s %s -> %s", rq.Method, rq.Target, rq.Body, clipStr(got.Stdout, 80)))
+		mk := func(sig string, exp, act interface{}) []Viol {
+			return []Viol{{Prop: "C19", Run: run, Seed: seed, Tape: append([]uint32(nil), t.Rec...), Engine: "session", Signature: sig,
+				Derived:  map[string]interface{}{"frontend": "http", "history": append([]string(nil), hist...)},
+				Expected: map[string]interface{}{"fresh_process": exp}, Actual: map[string]interface{}{"after_history": act}}}
+		}
+		s.FPChecks++
+		if fp := FingerprintBuiltins(c.it.Global); fp != base {
+			name, a, b := firstDiffLine(base, fp)
+			return mk("C19/http/builtin-changed/"+name, clipStr(a, 600), clipStr(b, 600))
+		}
+		pi := t.Intn(len(httpProbes))
+		want, err := c.freshResult("http", probeProg{kind: fmt.Sprint(pi)})
+		if err != nil {
+			s.Infra++
+			return nil
+		}
+		p := httpProbes[pi]
+		gotP := serveCaptured(h, p)
+		s.Probes++
+		s.ProbeKind["http "+p.Target]++
+		hist = append(hist, fmt.Sprintf("[probe] %s %s -> %s", p.Method, p.Target, clipStr(gotP.Stdout, 80)))
+		if d := gotP.diff(want); d != "" {
+			return mk(fmt.Sprintf("C19/http/probe-differs/%s/%s", strings.SplitN(p.Target, "?", 2)[0], d), want, gotP)
+		}
+		s.Distinct["http|"+strings.Join(kinds, ",")+"|"+p.Target] = true
+	}
+	return nil
 }
 
 // runTestHistory: `pangaea test dir` with history files sorted before the probe file.
